@@ -272,8 +272,12 @@ def run_nack(inp):
             sc.pend['dg'] = case.spawn(fe.express(R.name_wire(tcomps), lifetime=4000, nonce=0x55))
             await asyncio.sleep(0)
             iw = fe.face.sent[n0]
+            # a second Interest outstanding under the SAME name without the digest: the Nack does not name it
+            sc.pend['dg-plain'] = case.spawn(fe.express(R.name_wire([P, R.comp('dg')]), lifetime=4000, nonce=0x56))
+            await asyncio.sleep(0)
             fe.face.sent.clear()
             names['dg'] = tcomps
+            names['dg-plain'] = [P, R.comp('dg')]
         else:
             tcomps = names[target]
             iw = sc.sent_interest[target]
@@ -331,6 +335,13 @@ def run_nack(inp):
             viol('nack-background:%s' % be[0], desc + ': background error %s at %s: %s' % be)
         case.background_errors.clear()
         # the others still complete with their Data
+        if target == 'digest' and 'dg-plain' in sc.pend and not sc.pend['dg-plain'].done():
+            await fe.app._receive(R.LP, R.lp_wire(dw, []))
+            await case.settle()
+            t = sc.pend['dg-plain']
+            if not t.done() or exc_view(t) is not None or fe.result_view(t.result())[1] != b'with-digest':
+                viol('nack-damaged-other', desc + ': afterwards the Interest for the same name WITHOUT the digest did not '
+                                                  'complete with its (wrapped) Data')
         if 'zz' not in named and not sc.pend['zz'].done():
             await fe.app._receive(6, R.data_wire(ZZ, b'zz-content'))
             await case.settle()
